@@ -160,6 +160,8 @@ impl Connect {
         } else {
             None
         };
+        // payload must end where the frame ends
+        ensure!(!src.has_remaining(), DecodeError::InvalidLength);
 
         Ok(Connect {
             clean_start: flags.contains(ConnectFlags::CLEAN_START),
